@@ -59,6 +59,7 @@ POSES = [  # (body pos, body quat, geom pos, geom quat)
 CUBE = [np.array(c, float) for c in itertools.product((-1, 0, 1), repeat=3) if any(c)]
 GENERIC = [np.array([1.0, 2.0, 3.0]) / S14, np.array([-0.3, 0.5, -0.81]), np.array([0.62, -0.75, 0.23]),
            np.array([-0.05, -0.02, 1.0]), np.array([0.7, 0.71, -0.004]), np.array([-0.9, 0.1, 0.42])]
+NEARAXIS = [np.array([1.0, -1e-4, 2e-4]), np.array([3e-4, -1.0, 1e-4]), np.array([-2e-4, 1e-4, 1.0])]   # tiny but non-zero components
 SCALES = [1.0, 0.5, 3.0]
 LOCALDIRS = [np.array(u, float) for u in ((1, 0, 0), (-1, 0, 0), (0, 1, 0), (0, -1, 0), (0, 0, 1), (0, 0, -1))] + \
             [np.array([1.0, 2.0, 3.0]) / S14, np.array([-2.0, 1.0, -1.0]) / math.sqrt(6.0)]
@@ -284,7 +285,7 @@ class Caster:
 
 
 def directions(extra_dirs, ngen):
-    dirs = [c for c in CUBE] + GENERIC[:ngen] + list(extra_dirs)
+    dirs = [c for c in CUBE] + GENERIC[:ngen] + NEARAXIS + list(extra_dirs)
     out = []
     for dvec in dirs:
         for s in SCALES:
@@ -529,7 +530,7 @@ def scene_item(lib, part, item, thorough):
             t = cent[k] - ow
             if np.linalg.norm(t) > 1e-6:
                 aims.append(t / np.linalg.norm(t))
-        dirs = [cc for cc in CUBE] + GENERIC[:ngen] + aims
+        dirs = [cc for cc in CUBE] + GENERIC[:ngen] + NEARAXIS + aims
         V = np.array([dv * SCALES[i % 3] for i, dv in enumerate(dirs)])
         P = np.repeat(ow[None], len(V), axis=0)
         vn = np.linalg.norm(V, axis=1)
@@ -674,7 +675,7 @@ def run(ctx):
     ctx.rule = ("A: {plane inf/rect, sphere, capsule, ellipsoid, cylinder, box} x 2 sizes, hfield x 2, meshes %s, each x 3 poses "
                 "(identity; 90deg body o 90deg geom; generic o generic) x origins {centre, 8 local directions x fractions "
                 "{.5, 1-eps, 1+eps, 1.6, 4} of the surface radius} (plane: 3 xy x 5 heights; hfield: outside only) x "
-                "{26 cube directions, %d generic, aimed at centre, aimed off-centre} x |vec| in {1, .5, 3}; "
+                "{26 cube directions, %d generic, 3 near-axis (components 1e-4), aimed at centre, aimed off-centre} x |vec| in {1, .5, 3}; "
                 "B: 6-geom 5-body scene x 3 configurations x 4 alpha variants (+1 group-clamp variant) x all geomgroup masks over "
                 "used groups + NULL x flg_static x bodyexclude in {-1,0..4} x 7 (10) origins x {26 + generic + aimed at each geom}; "
                 "mj_multiRay vs mj_ray on every batch, cutoff in {.7,1.5}. non-trivial = the reference reports a hit "
